@@ -27,8 +27,10 @@ func family(prop string, ki *tsrc.KeyInfo) string {
 		return "script-params-reformatted"
 	case strings.HasPrefix(k, "file=") && has("css "):
 		return "trailing-comment-growth"
+	case has("/**/var b int") || has("file-go-comment-before"):
+		return "gofmt-comment-before-declaration"
 	case strings.HasPrefix(k, "file=") || has("file-header"), has("file-no-package"):
-		return "file-without-package"
+		return "other-file-level"
 	case has("//") && (ki.Class == "reject:parse" || ki.Class == "error"):
 		return "line-comment-swallows-closer"
 	case has("b=legacycall") && has("a=text"):
@@ -39,7 +41,7 @@ func family(prop string, ki *tsrc.KeyInfo) string {
 		return "single-line-element-non-trailer-child"
 	case has("/* c */ s }"), has("/* c */ b }"):
 		return "leading-comment-in-expression"
-	case has("/* c */ }") || has("expr-comment") || has("// c\\n"):
+	case has("s...") || has("/* c */ }") || has("expr-comment") || has("// c\\n"):
 		return "trailing-comment-growth"
 	case has("{! c( ) }") || has("legacycall-"):
 		return "legacy-call-not-gofmted"
@@ -47,8 +49,8 @@ func family(prop string, ki *tsrc.KeyInfo) string {
 		return "gocode-two-statements"
 	case has("={ ") && has(",") && has("\\n"):
 		return "multiline-attr-expression"
-	case has("... }"):
-		return "variadic-string-expression"
+	case has("s... "):
+		return "trailing-comment-growth"
 	case prop == "C08" && (has("ctx=if") || has("ctx=call") || has("ctx=for") || has("ctx=case")) && has("sep=none"):
 		return "F2-newline-after-non-trailer-in-body"
 	case prop == "C08" && (has("b=if") || has("b=for") || has("b=switch") || has("b=spanml") || has("b=divml")):
@@ -67,8 +69,8 @@ func anchor(f string) string {
 		return "parser/v2/types.go: formatFunctionArguments / HTMLTemplate.Write"
 	case "script-params-reformatted":
 		return "parser/v2/types.go: ScriptTemplate.Write (formatFunctionArguments) vs generator/generator.go: writeScript (raw parameter text)"
-	case "file-without-package":
-		return "parser/v2/templatefile.go: TemplateFileParser.Parse (header lines when no package clause) / parser/v2/types.go: TemplateFile.Write"
+	case "gofmt-comment-before-declaration":
+		return "parser/v2/types.go: TemplateFileGoExpression.Write (go/format.Source itself needs two passes for `/* c */ var x` after another declaration)"
 	case "line-comment-swallows-closer":
 		return "parser/v2/types.go: GoCode.Write, ExpressionAttribute.Write (closing brace written on the line of a // comment)"
 	case "legacy-call-after-text":
